@@ -677,6 +677,11 @@ impl World {
             if !addressed {
                 continue;
             }
+            // which of the party's key packages the Welcome names
+            let used_last_resort = self.parties[pid].key_packages.iter().any(|kp| {
+                kp.key_package_reference(&cs).ok().flatten().map(|r| w.welcome_key_package_references().iter().any(|x| **x == r)).unwrap_or(false)
+                    && self.parties[pid].last_resort_kps.contains(&kp.to_bytes().unwrap_or_default())
+            });
             let c = &self.parties[pid].client;
             let t = tree.clone();
             match guarded(|| c.join_group(t, w, None)) {
@@ -684,6 +689,7 @@ impl World {
                     let p = &mut self.parties[pid];
                     p.group = Some(g);
                     p.status = Status::Active;
+                    p.joined_with_last_resort = used_last_resort;
                     return Ok(());
                 }
                 Ok(Err(e)) => last = format!("{e:?}"),
